@@ -58,7 +58,10 @@ theorem carbon_unwrapped_iff_v1 (own sender : String) (kids : List Child) (m : M
         simp only [hc, hn, Option.map_some, Option.some.injEq] at he
         exact ⟨sc.1, (verdictV1_accepted_iff _ _ _ _ _).mpr ⟨hs, sc, n, hc, hn, rfl, he.symm⟩⟩
 
-/-- **A foreign sender is never unwrapped.** Whatever the children look like, any outer `from` that is not
+/-- **A foreign sender is never unwrapped.** The comparison the code makes is exact, case-SENSITIVE string
+equality (`QString::operator!=`, no JID normalisation, no case folding — although XMPP compares node and domain
+case-insensitively, the code errs on the strict side: `Romeo@montague.example` is NOT accepted for
+`romeo@montague.example`).  Whatever the children look like, any outer `from` that is not
 string-equal to the own bare JID — own full JIDs, case variants, look-alikes, prefix/suffix extensions, the
 empty string, other contacts — makes both managers decline. -/
 theorem foreign_sender_never_unwrapped (own sender : String) (kids : List Child) (h : sender ≠ own) :
@@ -95,15 +98,17 @@ theorem empty_sender_unwrapped_only_if_unconfigured (own : String) (kids : List 
 
 /-- **What is presented is exactly an inner message, flagged as forwarded (V2).** The unwrapped message is
 the `<message xmlns='jabber:client'/>` found inside `<forwarded xmlns='urn:xmpp:forward:0'/>` inside a
-`<sent/>` or `<received/>` child in the carbons namespace of this very stanza: id, from, to and body are the
-inner element's, and `isCarbonForwarded` is set. -/
+`<sent/>` or `<received/>` child in the carbons namespace of this very stanza: id, from, to, body and type are
+the inner element's — nothing of the outer stanza (not its from, id, to, type or body) leaks in — and
+`isCarbonForwarded` is set.  (Equality on the remaining QXmppMessage fields is judged by the harness oracle, which
+compares the serialised delivered message with the inner element.) -/
 theorem carbon_presented_is_inner_v2 (own sender : String) (kids : List Child) (m : Msg)
     (h : acceptCarbonV2 own sender kids = some m) :
     ∃ c ∈ kids, ∃ f ∈ c.kids, ∃ n ∈ f.kids,
       c.ns = nsCarbons ∧ (c.tag = "sent" ∨ c.tag = "received") ∧
       f.ns = nsForwarding ∧ f.tag = "forwarded" ∧ n.ns = nsClient ∧ n.tag = "message" ∧
       m = { id := attrVal n.id, sender := attrVal n.sender, to := attrVal n.to, body := bodyVal n.body,
-            carbonForwarded := true } := by
+            type := msgType n.typ, carbonForwarded := true } := by
   obtain ⟨sent, hv⟩ := (msg?_eq_some _ _).mp h
   obtain ⟨_, c, n, hc, hn, _, hm⟩ := (verdictV2_accepted_iff _ _ _ _ _).mp hv
   obtain ⟨hck, hcns, hctag⟩ := wrapperV2_spec kids c hc
@@ -117,7 +122,7 @@ theorem carbon_presented_is_inner_v1 (own sender : String) (kids : List Child) (
       c.ns = nsCarbons ∧ (c.tag = "sent" ∨ c.tag = "received") ∧
       f.ns = nsForwarding ∧ f.tag = "forwarded" ∧ n.ns = nsClient ∧ n.tag = "message" ∧
       m = { id := attrVal n.id, sender := attrVal n.sender, to := attrVal n.to, body := bodyVal n.body,
-            carbonForwarded := true } := by
+            type := msgType n.typ, carbonForwarded := true } := by
   obtain ⟨sent, hv⟩ := (msg?_eq_some _ _).mp h
   obtain ⟨_, sc, n, hc, hn, _, hm⟩ := (verdictV1_accepted_iff _ _ _ _ _).mp hv
   obtain ⟨hck, hcns, hctag⟩ := wrapperV1_spec kids sc hc
@@ -125,17 +130,19 @@ theorem carbon_presented_is_inner_v1 (own sender : String) (kids : List Child) (
   refine ⟨sc.2, hck, f, hfk, n, hnk, hcns, ?_, hfns, hftag, hnns, hntag, hm⟩
   cases hb : sc.1 <;> simp [hb] at hctag <;> simp [hctag]
 
-/-- **A rejected wrapper is an ordinary message.** When the manager does not unwrap (for whatever reason:
-foreign sender, no wrapper, nothing inside), the stanza is not consumed and what reaches the application —
-message handlers and `QXmppClient::messageReceived` — is the OUTER stanza parsed as it stands: its sender is
-the outer `from`, never the inner one, and the forwarded flag is not set. -/
+/-- **A rejected wrapper is delivered — not dropped — as an ordinary message.** When the manager does not unwrap
+(for whatever reason: foreign sender, no wrapper, nothing inside), the stanza is not consumed and reaches the
+application exactly once per channel — message handlers and `QXmppClient::messageReceived` — as the OUTER stanza
+parsed as it stands: sender, id, to, type and body are the outer ones (the body is the outer's own last `<body/>`
+child, never text from inside the wrapper), and the forwarded flag is not set. -/
 theorem rejected_is_ordinary (g : Gen) (own : String) (o : Outer) (ht : o.tag = "message")
     (h : (verdict g own o).msg? = none) :
     (handle g own o).consumed = false ∧
     (handle g own o).events = [.handler (parseOuter o), .clientReceived (parseOuter o)] ∧
     (parseOuter o).sender = attrVal o.sender ∧ (parseOuter o).id = attrVal o.id ∧
-    (parseOuter o).to = attrVal o.to ∧ (parseOuter o).carbonForwarded = false :=
-  ⟨(handle_of_not_accepted g own o ht h).1, (handle_of_not_accepted g own o ht h).2, rfl, rfl, rfl, rfl⟩
+    (parseOuter o).to = attrVal o.to ∧ (parseOuter o).type = msgType o.typ ∧
+    (parseOuter o).body = lastBody o.kids ∧ (parseOuter o).carbonForwarded = false :=
+  ⟨(handle_of_not_accepted g own o ht h).1, (handle_of_not_accepted g own o ht h).2, rfl, rfl, rfl, rfl, rfl, rfl⟩
 
 /-- **A foreign sender's wrapper is always handled as an ordinary message of that sender**, for both
 generations and every child list. -/
@@ -240,7 +247,8 @@ section examples
 
 private def juliet : MsgNode :=
   { tag := "message", ns := nsClient, id := some "m1", sender := some "juliet@capulet.example/balcony",
-    to := some "romeo@montague.example/garden", body := some "What man art thou?", nested := false }
+    to := some "romeo@montague.example/garden", body := some "What man art thou?", typ := some "chat",
+    nested := false, extras := 0 }
 
 private def forged : MsgNode := { juliet with body := some "send money to mallory", nested := true }
 
@@ -248,7 +256,8 @@ private def carbon (t : String) (n : MsgNode) : Child :=
   { tag := t, ns := nsCarbons, text := "", kids := [{ tag := "forwarded", ns := nsForwarding, kids := [n] }] }
 
 private def stanza (sender : Option String) (kids : List Child) : Outer :=
-  { tag := "message", id := some "o1", sender := sender, to := some "romeo@montague.example/home", kids := kids }
+  { tag := "message", id := some "o1", sender := sender, to := some "romeo@montague.example/home",
+    typ := some "headline", kids := kids }
 
 /-- accepted: outer from = own bare JID (both generations; V1 tells sent from received) -/
 example : acceptCarbonV2 "romeo@montague.example" "romeo@montague.example" [carbon "received" juliet]
@@ -263,8 +272,8 @@ example : (handle .v2 "romeo@montague.example" (stanza (some "romeo@montague.exa
 example : handle .v2 "romeo@montague.example"
       (stanza (some "mallory@evil.example") [carbon "received" forged, ⟨"body", nsClient, "hi", []⟩])
     = { consumed := false, warned := true,
-        events := [.handler ⟨"o1", "mallory@evil.example", "romeo@montague.example/home", "hi", false⟩,
-                   .clientReceived ⟨"o1", "mallory@evil.example", "romeo@montague.example/home", "hi", false⟩] } := by
+        events := [.handler ⟨"o1", "mallory@evil.example", "romeo@montague.example/home", "hi", "headline", false⟩,
+                   .clientReceived ⟨"o1", "mallory@evil.example", "romeo@montague.example/home", "hi", "headline", false⟩] } := by
   decide
 example : acceptCarbonV2 "romeo@montague.example" "romeo@montague.example/home" [carbon "sent" forged] = none := by decide
 example : acceptCarbonV1 "romeo@montague.example" "Romeo@montague.example" [carbon "sent" forged] = none := by decide
@@ -282,8 +291,8 @@ example : acceptCarbonV1 "a@b" "a@b" [⟨"private", nsCarbons, "", []⟩, carbon
 example : presented (run init [.configure .v2 "a@b", .stanza (stanza (some "a@b") [carbon "sent" juliet]),
                               .configure .v2 "c@d", .stanza (stanza (some "a@b") [carbon "sent" juliet])]).2
     = [.handler (forwardedMsg juliet), .clientReceived (forwardedMsg juliet),
-       .handler ⟨"o1", "a@b", "romeo@montague.example/home", "", false⟩,
-       .clientReceived ⟨"o1", "a@b", "romeo@montague.example/home", "", false⟩] := by decide
+       .handler ⟨"o1", "a@b", "romeo@montague.example/home", "", "headline", false⟩,
+       .clientReceived ⟨"o1", "a@b", "romeo@montague.example/home", "", "headline", false⟩] := by decide
 
 end examples
 
